@@ -80,6 +80,14 @@ CURATED = [
     "a(i) = b(i) - (c(i) - d(i))",
     "a(i) = b(i) + (c(i) + d(i))",
     "a(i) = b(i) * (c(i) * d(i))",
+    "a() = b() + c(k) + d(k)",
+    "a(i) = b(i) + c(i,k) + d(k,i)",
+    "a() = (b() + c(k)) * (d(k) + e())",
+    "a() = 100000 * 100000",
+    "a(i) = 3000000000 * b(i)",
+    "a() = 1.0 * 100000 * 100000",
+    "a(i) = (b(i) + c(i,k)) * (d(k) + e(i))",
+    "a(i) = b(i) * c(i) + d(i) + (e(i) + g(i)) * b(i)",
 ]
 
 INDEX_POOL = ["i", "j", "k", "l"]
@@ -186,8 +194,31 @@ def make_problem(assignment, fmts):
 
 
 def index_sizes(assignment, rng: random.Random, choices=(0, 1, 2, 3)) -> dict[str, int]:
-    idx = list(assignment.index_participants().keys())
-    return {i: rng.choice(choices) for i in idx}
+    """One size per index; indexes that address the same dimension of the same tensor (a tensor
+    used several times with different index lists) are forced to share a size."""
+    part = assignment.index_participants()
+    idx = list(part.keys())
+    parent = {i: i for i in idx}
+
+    def find(x):
+        while parent[x] != x:
+            x = parent[x]
+        return x
+
+    owner = {}
+    for i, ps in part.items():
+        for p in ps:
+            if p in owner:
+                parent[find(i)] = find(owner[p])
+            else:
+                owner[p] = i
+    sizes = {}
+    for i in idx:
+        r = find(i)
+        if r not in sizes:
+            sizes[r] = rng.choice(choices)
+        sizes[i] = sizes[r]
+    return sizes
 
 
 def random_input(rng: random.Random, dims, density=None, values=(-2, -1, 1, 2, 3, 0)):
